@@ -10,6 +10,7 @@ import Ptn.C16.TensorProductValue
 import Ptn.C16.TensorProductGraph
 import Ptn.C16.TensorProductAbsorb
 import Ptn.C16.TensorProductPerm
+import Ptn.C16.TensorProductRename
 /-! Property theorems for C16. Only property theorems and non-vacuity examples live here. -/
 namespace Ptn.C16
 
@@ -828,5 +829,65 @@ example : sumPairs dim (Ttndo.physPairs (Ttndo.ketTree st)) (fun ρ =>
     sumPairs dim (Ttndo.physPairs (Ttndo.ketTree st)) (fun ρ =>
       (Ttndo.ketVec (Ttndo.absorbedKv dim tpOD [1, 3] kvD) (Ttndo.ketTree st)).eval dim ρ *
         (Ttndo.braVec bvD (Ttndo.ketTree st)).eval dim ρ) (fun _ => 0) = 24816 := by decide
+
+/-! ## The model's own labels: the value-level renaming `tpSwap` (B65) -/
+
+open Ptn.C04 Ptn.Ein in
+/-- **`tensor_product_value` in the MODEL's labels (partial: see below).**  Hypotheses of `tensor_product_value`, and
+the operator's output leg has the dimension of the physical leg at every named site (square operators; NumPy rejects
+anything else when the output leg meets the bra copy).  Let `f = Ttndo.tpSwap sites` (exchange the names `gKetPhys s`
+and `gOpOut s` at the named sites: an involution).  EVERY program `e` the trace is built from over the root tensor,
+the absorbed ket tensors and the bra tensors, renamed by `f` - so that the last axis of the absorbed ket tensor at a
+named site is called `gOpOut s`, as in the model `tensorProductExpectationValue` and in `tensor_product_graph` - is
+strongly well-formed, has the renamed record (its physical pairs are the model's `tpPhysPair sites`:
+`Ttndo.tpSwap_physPairs`; root pairs unchanged: `Ttndo.tpSwap_rootPairs`), the open leg of the root tensor as only free
+leg, the renamed leaves, and evaluates to the value of `tensor_product_value`.  The renamed absorbed leaf of a site
+absorbed once IS the value of the `tensordot` of `absorb_into_open_legs` (`Ttndo.tpSwap_pull_absorb`, with
+`absorb_value`).
+PARTIAL - what is missing for `tensor_product_model_value` / `tensor_product_loop_value`: (1) the absorbed tensor is a
+single leaf here (with the value of `absorbExpr`), not the sub-expression `absorbExpr` itself with its logged pair
+`(gKetPhys s, gOpIn s)` (substitution of a leaf by an expression of equal value); (2) provenance (`Built`) of the
+model's run on tensors that carry a logged pair (`Ttndo.traceTtndo_built` is stated for fresh ket tensors). -/
+theorem tensor_product_model_value_partial {R : Type} [CommSemiring R] (t : Ptn.C04.Tree) (hnd : t.ids.Nodup)
+    (dim : Leg → Nat) (O : Nat → Nat → Nat → R) (sites : List Nat)
+    (hsites : ∀ s ∈ sites, s ∈ (Ttndo.ketTree t).ids)
+    (hd : ∀ s ∈ sites, dim (Leg.gOpOut s) = dim (Leg.gKetPhys s))
+    (kv bv : Nat → Asg Leg → R) (rv : Asg Leg → R)
+    (hkv : Ttndo.KetLocal0 kv (Ttndo.ketTree t)) (hbv : Ttndo.BraLocal0 bv (Ttndo.ketTree t))
+    (hrv : DependsOn (· ∈ Ttndo.rootLegs) rv) :
+    ∃ binds, Ttndo.traceTtndo (Ttndo.ttndoNetK (Ttndo.ketTree t)) = some ⟨[], binds⟩ ∧
+      (∃ e : Expr Leg R, Built ⟨[Ttndo.rootOpenLeg], binds⟩ e ∧
+        e.leaves.Perm (Ttndo.traceLeaves rv (Ttndo.absorbedKv dim O sites kv) bv (Ttndo.ketTree t))) ∧
+      ∀ e : Expr Leg R, Built ⟨[Ttndo.rootOpenLeg], binds⟩ e →
+        e.leaves.Perm (Ttndo.traceLeaves rv (Ttndo.absorbedKv dim O sites kv) bv (Ttndo.ketTree t)) →
+        (e.rn_map (Ttndo.tpSwap sites)).SWF ∧
+        (e.rn_map (Ttndo.tpSwap sites)).binds.Perm (rn_pairs (Ttndo.tpSwap sites) binds) ∧
+        (e.rn_map (Ttndo.tpSwap sites)).free = [Ttndo.rootOpenLeg] ∧
+        (e.rn_map (Ttndo.tpSwap sites)).leaves =
+          e.leaves.map (fun lf => (lf.1.map (Ttndo.tpSwap sites), rn_pull (Ttndo.tpSwap sites) lf.2)) ∧
+        ∀ σ : Asg Leg, (e.rn_map (Ttndo.tpSwap sites)).eval dim σ =
+          sumPairs dim (Ttndo.rootPairs (Ttndo.ketTree t)) (fun τ => rv τ *
+            sumPairs dim (Ttndo.physPairs (Ttndo.ketTree t)) (fun ρ =>
+              Ttndo.applySites dim O sites ((Ttndo.ketVec kv (Ttndo.ketTree t)).eval dim) ρ *
+                (Ttndo.braVec bv (Ttndo.ketTree t)).eval dim ρ) τ) (fun l => σ (Ttndo.tpSwap sites l)) := by
+  obtain ⟨hl, hv⟩ := tensor_product_ket_value t hnd dim O sites hsites kv hkv
+  obtain ⟨binds, hrun, hex, hall⟩ := trace_loop_value t hnd (Ttndo.absorbedKv dim O sites kv) bv rv hl hbv hrv
+  refine ⟨binds, hrun, hex, fun e he hp => ?_⟩
+  obtain ⟨hswf, hb, hf, hval⟩ := hall e he hp
+  have hinj := Ttndo.tpSwap_inj sites
+  refine ⟨Expr.rn_swf_map _ hinj e hswf, ?_, ?_, Expr.rn_leaves_map _ e, fun σ => ?_⟩
+  · rw [Expr.rn_binds_map]; exact hb.map _
+  · rw [Expr.rn_free_map _ hinj, hf]; rfl
+  · rw [Expr.rn_eval_map _ hinj dim dim (Ttndo.tpSwap_dim sites dim hd), hval dim]
+    simp only [hv]
+
+open Ptn.C04 Ptn.Ein Ttndo.Demo in
+/-- non-vacuity: on the demo network (state tree `0 — 1`, ket identifiers `1`, `3`) with operators on both sites the
+dimension hypothesis holds (the others are in the examples after `trace_loop_value_padded_root` and
+`tensor_product_value`); the renaming is not the identity and turns the trace's physical pairs into the model's -/
+example : (∀ s ∈ [1, 3], dim (Leg.gOpOut s) = dim (Leg.gKetPhys s)) ∧
+    Ttndo.tpSwap [1, 3] (Leg.gKetPhys 3) = Leg.gOpOut 3 ∧ Ttndo.tpSwap [3] (Leg.gKetPhys 1) = Leg.gKetPhys 1 ∧
+    rn_pairs (Ttndo.tpSwap [3]) (Ttndo.physPairs (Ttndo.ketTree st)) =
+      [(Leg.gKetPhys 1, Leg.gBraPhys 1), (Leg.gOpOut 3, Leg.gBraPhys 3)] := by decide
 
 end Ptn.C16
